@@ -13,7 +13,8 @@ RULE = ("pd-shapes: every (start month/day, end month/day) of seed-rotated year 
         "time-of-day borrow (sampled to ~1e5 in quick, exhaustive over 6 year pairs in thorough); pd-month-arm / interval-month-arm: every shape of "
         "the region of the repaired finding exact-month-arm (day borrow equal to the month-length difference, start day not the end of the "
         "previous month) for four year pairs, with and without a time borrow (~10k, deterministic); random ordered pairs over years 1..9999 as "
-        "naive / UTC / fixed-offset / Date operands; cross-zone pairs (different fixed offsets incl. :30/:45, month-boundary shifts); "
+        "naive / UTC / fixed-offset / Date operands; pd-subclass: pendulum.DateTime instances passed directly as both / only the second / only the "
+        "first operand (region of the repaired finding rs-second-operand-subclass, its witness first); cross-zone pairs (different fixed offsets incl. :30/:45, month-boundary shifts); "
         "pendulum Interval objects (naive, UTC, fixed, Date, differently named zones) with a + (b - a), add(**components), the reversed interval, "
         "in_months; direct add()/add_duration with random signed components. Each pd case calls the backend helper in both directions and the "
         "pure-Python helper as reference. A case is non-trivial when the two operands differ.")
@@ -256,13 +257,27 @@ def cases(tier, seed):
         f = fields_of(wall_us(a) + off * 10**6)
         b = _mk("dt", f[:3], f[3:], rnd.choice([["pfixed", off], ["fixed", off]]))
         out.append({"stream": "pd-equal-instants", "fn": "pd", "args": [a, b]})
-    # ---- subclass operands passed directly, mixed kinds
+    # ---- datetime SUBCLASS instances (pendulum.DateTime) passed directly to the helper — the region of the (repaired) finding
+    #      rs-second-operand-subclass: the compiled helper tested its second operand with is_exact_type_of and ignored the time of day
+    #      of a subclass instance.  sub = 1: both operands are pendulum.DateTime, 2: only the second, 3: only the first (each case calls
+    #      the helper in both directions).  The historical witness first; same-day pairs (time-of-day only) are over-represented.
+    #      (The second loop has its own generator so that the other streams of a seed are what they were before the repair.)
+    out.append({"stream": "pd-subclass", "fn": "pd", "sub": 1,
+                "args": [_mk("dt", [2021, 1, 1], [10, 0, 0, 0], ["putc"]), _mk("dt", [2021, 1, 1], [12, 30, 0, 0], ["putc"])]})
     for _ in range(300):
         tz = rnd.choice([None, ["putc"], ["pfixed", 3600]])
         a = _mk("dt", _rand_date(rnd, 1900, 2100), _rand_time(rnd), tz)
         b = _mk("dt", _rand_date(rnd, 1900, 2100), _rand_time(rnd), tz)
         a, b = _order(a, b)
         out.append({"stream": "pd-subclass", "fn": "pd", "args": [a, b], "sub": 1})
+    rnd2 = random.Random(seed * 7919 + 606)
+    for i in range(300):
+        tz = rnd2.choice([None, ["putc"], ["pfixed", 3600]])
+        a = _mk("dt", _rand_date(rnd2, 1900, 2100), _rand_time(rnd2), tz)
+        ymd = a[1:4] if rnd2.random() < 0.3 else _rand_date(rnd2, 1900, 2100)
+        b = _mk("dt", ymd, _rand_time(rnd2), tz)
+        a, b = _order(a, b)
+        out.append({"stream": "pd-subclass", "fn": "pd", "args": [a, b], "sub": 1 + i % 3})
     for _ in range(200):
         a = _mk(rnd.choice(["dt", "date"]), _rand_date(rnd, 1900, 2100), _rand_time(rnd), rnd.choice([None, ["utc"]]))
         b = _mk(rnd.choice(["dt", "date"]), _rand_date(rnd, 1900, 2100), _rand_time(rnd), rnd.choice([None, ["utc"]]))
@@ -381,8 +396,9 @@ def impl_run(cases):
         fn, a = c["fn"], c["args"]
         try:
             if fn == "pd":
-                mk = pend if c.get("sub") else native
-                x, y = mk(a[0]), mk(a[1])
+                sub = c.get("sub", 0)
+                x = (pend if sub in (1, 3) else native)(a[0])
+                y = (pend if sub in (1, 2) else native)(a[1])
                 r1 = tup(backend.precise_diff(x, y))
                 r2 = tup(backend.precise_diff(y, x))
                 try:
@@ -432,8 +448,8 @@ def model_calls(c, backend):
         A, B = enc(a[0]), enc(a[1])
         if backend == "py":
             return [("py_precise_diff", A + B), ("py_precise_diff", B + A)]
-        ex = 0 if c.get("sub") else 1
-        return [("rs_precise_diff", A + B + [ex]), ("rs_precise_diff", B + A + [ex])]
+        # no "exact type" input: the compiled helper tests both operands with is_type_of (subclass instances are datetimes)
+        return [("rs_precise_diff", A + B), ("rs_precise_diff", B + A)]
     if fn == "iv":
         A, B = enc(a[0]), enc(a[1])
         return [(f"{backend}_interval", A + B), (f"{backend}_rebuild", A + B), (f"{backend}_interval", B + A)]
@@ -563,9 +579,8 @@ def _check(c, backend, r):
         return None
     if fn == "pd":
         comps = r[1:8]
-        if c.get("sub") or True:
-            if r[17:25] != r[1:9]:
-                return ("rs-eq-py", f"precise_diff{a}: backend {backend} reports {r[1:9]}, the pure-Python helper {r[17:25]}")
+        if r[17:25] != r[1:9]:
+            return ("rs-eq-py", f"precise_diff{a}{_subnote(c)}: backend {backend} reports {r[1:9]}, the pure-Python helper {r[17:25]}")
         for (lo, hi), v, nm in zip(RANGES, comps, ("years", "months", "days", "hours", "minutes", "seconds", "microseconds")):
             if not lo <= v <= hi:
                 return ("ranges", f"precise_diff{a}: {nm} = {v} outside {lo}..{hi} ({comps})")
@@ -602,6 +617,11 @@ def _check(c, backend, r):
                 return ("rebuild-impl", f"a.add(**components) = {add} but b is {b_fields(y)} (components {cc})")
         return None
     return None
+
+
+def _subnote(c):
+    s = c.get("sub", 0)
+    return "" if not s else " [%s passed as pendulum.DateTime]" % {1: "both operands", 2: "second operand", 3: "first operand"}[s]
 
 
 def b_fields(op):
@@ -689,6 +709,8 @@ def known(c, backend, r):
         return None
     tag = t[0]
     fn = c["fn"]
+    # (repaired) the compiled helper ignored the time of day of a datetime-subclass instance in second position; every pd case calls the
+    # helper in both directions, so any case with a subclass operand reaches it.  Status `fixed`: a reproduction is reported as a VIOLATION.
     if fn == "pd" and c.get("sub") and backend == "rs" and tag in ("rs-eq-py", "ranges", "rebuild", "negation") and c["args"][1][0] == "dt":
         return "rs-second-operand-subclass"
     if fn == "iv" and tag == "float-part" and abs(_elapsed(c)) >= TWO33:
@@ -711,7 +733,10 @@ LEVEL_TEXT = ("Machine-checked Coq theorems about the pure-Python precise_diff (
               "ordered pair of datetimes with zero offset (naive, UTC) or dates, every year 1..9999, both backends (pd_rebuild, pd_rust_rebuild; "
               "finding exact-month-arm is repaired, its region is now an ordinary deterministic stream), the same through the hand model of the "
               "Interval component properties and DateTime.add / Date.add (iv_rebuild, iv_rust_rebuild), in_months, and equality of the two "
-              "backends on that domain; the remaining Rust-only cross-zone defect is characterised by a refuted theorem.")
+              "backends on that domain; finding rs-second-operand-subclass is repaired: the Rust model has no exact-type input any more, the "
+              "pd_rust_* theorems hold for datetime subclass instances in either position (pd_rust_former_subclass_witness) and direct calls "
+              "with pendulum.DateTime operands are an ordinary stream; the remaining Rust-only cross-zone defect is characterised by a "
+              "refuted theorem.")
 DESIGN_REF = "DESIGN.md section 4 C06"
 LEVEL_NOTE = ("Trusted: Coq kernel+VM, the translator, the primitives of Model/PdBase.v as a model of CPython datetime, the hand models of the Rust helper "
               "and of the Interval glue (validated by correspondence every run), extraction+driver (cross-checked with vm_compute).")
